@@ -4,6 +4,8 @@
 package httpserver
 
 import (
+	"context"
+	"errors"
 	"net/http"
 	"net/url"
 	"strings"
@@ -237,4 +239,79 @@ func VerifH15cRedirectHandler() {
 	verifrt.Assert(w.Header().Get("Connection") == "close", "connection-close")
 	verifrt.Assert(strings.HasPrefix(w.Header().Get("Location"), "https://"), "never-back-to-http")
 	verifrt.Observe("loc", w.Header().Get("Location"))
+}
+
+// VerifH15dMakeServers: whatever a shared block's tls directive switched on, a site declared as
+// plain HTTP (http:// scheme or the HTTP port) never has TLS enabled once the servers are made,
+// and a TLS site keeps it.
+func VerifH15dMakeServers() {
+	n := verifrt.IntRange("nsites", 1, 2)
+	var cfgs []*SiteConfig
+	type decl struct {
+		scheme, port string
+		enabled      bool
+	}
+	var decls []decl
+	for i := 0; i < n; i++ {
+		scheme := []string{"", "http", "https"}[verifrt.Choose("scheme", 3)]
+		port := []string{"", "80", "443", "8080", "2015"}[verifrt.Choose("port", 5)]
+		host := []string{"a.com", "b.com"}[i]
+		tc := &caskettls.Config{Hostname: host, Manager: &certmagic.Config{}}
+		tc.Enabled = verifrt.Bool("tls-enabled-by-directive")
+		switch verifrt.Choose("tls-kind", 3) {
+		case 0:
+			tc.SelfSigned = true
+		case 1:
+			tc.Manual = true
+		}
+		orig := host
+		if scheme != "" {
+			orig = scheme + "://" + host
+		}
+		if port != "" {
+			orig += ":" + port
+		}
+		// the address as the server type itself reads it from the block's key
+		addr, err := standardizeAddress(orig)
+		verifrt.Assume(err == nil) // http://host:443 and https://host:80 are refused when the key is read
+		cfgs = append(cfgs, &SiteConfig{Addr: addr, TLS: tc})
+		decls = append(decls, decl{scheme, addr.Port, tc.Enabled})
+	}
+	h := &httpContext{keysToSiteConfigs: map[string]*SiteConfig{}}
+	h.siteConfigs = cfgs
+	_, _ = h.MakeServers() // an error (say, TLS and plaintext on one listener) still leaves the flags decided
+	for i, c := range cfgs {
+		if decls[i].scheme == "http" || decls[i].port == "80" {
+			verifrt.Assert(!c.TLS.Enabled, "plain-http-site-never-has-tls")
+		} else {
+			verifrt.Assert(c.TLS.Enabled == decls[i].enabled, "tls-site-keeps-tls")
+		}
+	}
+	verifrt.Observe("n", n)
+}
+
+// VerifH15eCertificateLoadFault: when a managed site's certificate cannot be loaded at start,
+// the start is refused or the site still has TLS on -- it is never left qualifying, managed and
+// served in plaintext.
+func VerifH15eCertificateLoadFault() {
+	verifrt.Stub("(*github.com/caddyserver/certmagic.Config).CacheManagedCertificate",
+		func(*certmagic.Config, context.Context, string) (certmagic.Certificate, error) {
+			return certmagic.Certificate{}, errors.New("certificate load failed")
+		})
+	n := verifrt.IntRange("nsites", 1, 2)
+	var cfgs []*SiteConfig
+	for i := 0; i < n; i++ {
+		host := []string{"a.com", "b.com"}[i]
+		m := certmagic.NewDefault()
+		m.Storage = &certmagic.FileStorage{Path: verifrt.FSRoot() + "/certmagic"}
+		tc := &caskettls.Config{Hostname: host, Manager: m, Managed: verifrt.Bool("managed")}
+		cfgs = append(cfgs, &SiteConfig{Addr: Address{Original: host, Host: host}, TLS: tc})
+	}
+	err := enableAutoHTTPS(cfgs, true)
+	for _, c := range cfgs {
+		if err == nil && c.TLS.Managed {
+			verifrt.Assert(c.TLS.Enabled, "managed-site-never-left-in-plaintext")
+		}
+	}
+	verifrt.Observe("err", err != nil)
 }
